@@ -89,6 +89,52 @@ func main() {
 		}
 		return
 	}
+	if *prop == "all" || strings.Contains(*prop, ",") {
+		// matrix mode: one load, every listed property's quick rules, one RESULT line each (used by tools/seedmatrix.sh)
+		var ids []string
+		if *prop == "all" {
+			for id := range registry {
+				ids = append(ids, id)
+			}
+		} else {
+			ids = strings.Split(*prop, ",")
+		}
+		sort.Strings(ids)
+		p, err := Load(LoadOpts{Dir: *repo})
+		if err != nil {
+			fmt.Fprintf(os.Stderr, "lfscheck: cannot analyse %s: %v\n", *repo, err)
+			os.Exit(2)
+		}
+		worst := 0
+		for _, id := range ids {
+			def := registry[id]
+			if def == nil {
+				fmt.Fprintf(os.Stderr, "lfscheck: unknown property %q\n", id)
+				os.Exit(2)
+			}
+			code := func() (code int) {
+				defer func() {
+					if r := recover(); r != nil {
+						fmt.Fprintf(os.Stderr, "lfscheck: internal error in %s: %v\n%s\n", id, r, debug.Stack())
+						code = 2
+					}
+				}()
+				c := &Ctx{P: p, Prop: def.ID, Tier: "quick"}
+				def.Run(c)
+				vd, _ := os.MkdirTemp("", "lfscheck-scratch-")
+				defer os.RemoveAll(vd)
+				if b, err := os.ReadFile(filepath.Join(*verif, "KNOWN_FINDINGS.json")); err == nil {
+					os.WriteFile(filepath.Join(vd, "KNOWN_FINDINGS.json"), b, 0o644)
+				}
+				return c.Finish(vd, def.Level, def.Explanation, def.Assumptions, trustedBase, time.Now(), 0, map[string]interface{}{})
+			}()
+			fmt.Printf("RESULT %s rc=%d\n", id, code)
+			if code > worst {
+				worst = code
+			}
+		}
+		os.Exit(worst)
+	}
 	def := registry[*prop]
 	if def == nil {
 		fmt.Fprintf(os.Stderr, "lfscheck: unknown property %q\n", *prop)
